@@ -20,6 +20,11 @@ parameter vector in scope.  The output is judged by
       every non-empty container left on one line sits on a line that fits
       max_width; expand_all leaves no non-empty container inline.
 
+HISTORY part: one Pretty(obj) instance is measured / rendered at two widths /
+its object mutated in place, all histories of length <=3 (quick) / <=4 (thorough);
+every render must show the CURRENT object (keys history/pretty/...).  31 360
+histories, ~51 k judged renders, ~40 CPU-s in quick; 138 880 histories in thorough.
+
 Cost: ~110-120 us CPU per evaluation (half of it Rich itself). quick = 2.05 M
 evaluations (~225 CPU-s, ~15-20 s wall on 16 idle cores); thorough = 44 M
 evaluations (~5 200 CPU-s, ~6 min wall on 16 idle cores). The development machine
@@ -38,7 +43,7 @@ from ..width import sw
 
 ID = "C16"
 LEVEL = "exploration"
-ENGINE = "E1"
+ENGINE = "E1+E2"
 CAP_S = {"quick": 240, "thorough": 1500}
 TECHNIQUE = ("bounded-exhaustive enumeration of value descriptions x printer parameters on the real "
              "pretty_repr, judged by eval-back with typed deep equality plus an independent "
@@ -1207,6 +1212,187 @@ def _run_value(desc, params, res, state):
         res.sig(sig, nontrivial=(n_inline + n_expanded) > 0)
 
 
+# --------------------------------------------------------------------------- HISTORY part
+# One Pretty(obj, **variant) instance lives through a history of events; the wrapped object is
+# mutated in place in between.  Every render must show the CURRENT object.
+H_VALUES = [
+    ("list2", ("list", (L0, L(1)))),
+    ("list3", ("list", (L0, L(1), L("a")))),
+    ("dict1", ("dict", ((L("a"), L0),))),
+    ("dict2", ("dict", ((L("a"), L0), (L("b"), L("あ"))))),
+    ("set1", ("set", (L0,))),
+    ("deque2", ("deque", (L0, L(1)))),
+    ("ddict1", ("defaultdict", ((L("a"), L0),))),
+    ("list-in-list", ("list", (("list", (L0,)), L("a")))),
+    ("list-in-dict", ("dict", ((L("a"), ("list", (L0, L(1)))), (L("b"), ("tuple", ()))))),
+    ("dict-in-list", ("list", (("dict", ((L("a"), L0),)), L0))),
+    ("list-in-tuple", ("tuple", (("list", (L0,)),))),
+    ("set-in-dict", ("dict", ((L("a"), ("set", (L0,))),))),
+]
+H_MUTATIONS = ("append", "pop", "setitem", "clear", "grow", "nested-append", "nested-clear")
+H_EVENTS = ("M", "R1", "R2", "X")
+H_W1, H_W2 = 40, 16
+H_VARIANTS = [
+    {},
+    {"max_length": 1},
+    {"max_string": 2},
+    {"expand_all": True},
+    {"indent_guides": True},
+    {"indent_size": 2},
+    {"max_length": 2, "max_string": 2, "indent_guides": True},
+]
+
+
+def _first_container_child(obj):
+    it = obj.values() if isinstance(obj, dict) else obj
+    for c in it:
+        if type(c) in (list, dict, set, deque, defaultdict):
+            return c
+    return None
+
+
+def h_applicable(obj, mut):
+    t = type(obj)
+    if mut in ("nested-append", "nested-clear"):
+        return _first_container_child(obj) is not None
+    if t is tuple:
+        return False
+    if mut == "setitem":
+        return t is not set
+    return True
+
+
+def h_mutate(obj, mut, step):
+    """in-place, total (a no-op where it cannot apply, e.g. pop on empty); `step` makes repeated
+    applications distinguishable"""
+    if mut.startswith("nested-"):
+        obj = _first_container_child(obj)
+        if obj is None:
+            return
+        mut = mut[7:]
+    t = type(obj)
+    new = 7 + step
+    if mut == "append":
+        if t in (list, deque):
+            obj.append(new)
+        elif t is set:
+            obj.add(new)
+        else:
+            obj["k%d" % step] = new
+    elif mut == "pop":
+        if len(obj):
+            if t in (dict, defaultdict):
+                obj.popitem()
+            else:
+                obj.pop()
+    elif mut == "setitem":
+        if len(obj) and t is not set:
+            if t in (dict, defaultdict):
+                obj[next(iter(obj))] = "wxyz%d" % step
+            else:
+                obj[0] = "wxyz%d" % step
+    elif mut == "clear":
+        obj.clear()
+    elif mut == "grow":
+        more = [10 + step, 11, 12, 13, 14, 15, 16, 17, 18]
+        if t in (list, deque):
+            obj.extend(more)
+        elif t is set:
+            obj.update(more)
+        else:
+            for m in more:
+                obj["g%d" % m] = m
+
+
+def h_histories(maxlen):
+    for n in range(1, maxlen + 1):
+        for h in itertools.product(H_EVENTS, repeat=n):
+            if any(e in ("R1", "R2") for e in h):      # without a render nothing is observed
+                yield h
+
+
+def _h_console():
+    import io
+    from rich.console import Console
+    return Console(file=io.StringIO(), width=80, height=25, force_terminal=False, color_system=None,
+                   legacy_windows=False, _environ={})
+
+
+def run_history(vname, desc, mut, variant, hist, res):
+    from rich.pretty import Pretty, pretty_repr
+    from rich.measure import Measurement
+    obj = build(desc)
+    console = _h_console()
+    pretty = Pretty(obj, **variant)
+    ind = variant.get("indent_size", 4)
+    ml, ms, ea = variant.get("max_length"), variant.get("max_string"), variant.get("expand_all", False)
+    case = {"part": "hist", "value": vname, "mut": mut, "variant": variant, "hist": list(hist)}
+    mutated = 0
+    seen_before = False      # a measure or render happened before the latest mutation
+    touched = False
+    for pos, ev in enumerate(hist):
+        try:
+            if ev == "X":
+                h_mutate(obj, mut, mutated)
+                mutated += 1
+                seen_before = seen_before or touched
+                continue
+            touched = True
+            if ev == "M":
+                Measurement.get(console, pretty, H_W1)
+                continue
+            W = H_W1 if ev == "R1" else H_W2
+            segs = list(console.render(pretty, console.options.update(width=W)))
+        except Exception as e:      # noqa
+            res.violate("history/pretty/" + _crash_key(e), dict(case, at=pos), "%s: %s" % (type(e).__name__, e))
+            res.sig(("hist-crash", type(e).__name__))
+            return
+        text = "".join(sg.text for sg in segs if not sg.is_control)
+        if text.endswith("\n"):
+            text = text[:-1]
+        if variant.get("indent_guides"):
+            text = text.replace("│", " ")
+        res.evaluations += 1
+        stale_possible = mutated > 0 and seen_before
+        phase = "after-mutation" if mutated else "before-mutation"
+        # the statement is about the representation, not about cropping: judge only where the
+        # representation of the current object fits the render width line by line
+        want = pretty_repr(obj, max_width=W, indent_size=ind, max_length=ml, max_string=ms, expand_all=ea)
+        fits = all(sw(line) <= W for line in want.split("\n"))
+        res.sig(("hist", type(obj).__name__, ev, min(mutated, 2), stale_possible, fits,
+                 tuple(sorted(variant))), nontrivial=stale_possible and fits)
+        if not fits:
+            res.count("history_renders_not_judged_line_wider_than_width")
+            continue
+        # (b) the rendered text is the current value (independent of pretty_repr) ...
+        viol, _info, _root, _toks = judge_content(("H",), obj, text, ml, ms)
+        if viol:
+            key, detail = viol[0]
+            res.violate("history/pretty/not-the-current-value/" + phase, dict(case, at=pos),
+                        "event %d (%s, width %d): current object %r, rendered\n%s\n[%s] %s"
+                        % (pos, ev, W, obj, text, key, detail))
+        # (a) ... and it is laid out like pretty_repr of the current object (reported on its own
+        # only when the content is right, so that one stale-content defect has one key)
+        elif text != want:
+            res.violate("history/pretty/render-differs-from-pretty_repr/" + phase, dict(case, at=pos),
+                        "event %d (%s, width %d) rendered\n%s\nbut pretty_repr of the current object %r is\n%s"
+                        % (pos, ev, W, text, obj, want))
+    res.count("histories")
+
+
+def h_cases(tier):
+    maxlen = 3 if tier == "quick" else 4
+    hists = list(h_histories(maxlen))
+    for vname, desc in H_VALUES:
+        probe = build(desc)
+        for mut in H_MUTATIONS:
+            if not h_applicable(probe, mut):
+                continue
+            for variant in H_VARIANTS:
+                for hist in hists:
+                    yield vname, desc, mut, variant, hist
+
+
 # --------------------------------------------------------------------------- plan
 # stratum name -> (generator, parameter-set name quick, parameter-set name thorough, tiers)
 ROT_K = 64
@@ -1250,6 +1436,8 @@ def plan(tier, seed):
     shards = [{"part": "core", "i": i, "n": n} for i in range(n)]
     if tier == "quick":
         shards += [{"part": "rot", "i": i, "n": 16, "slice": seed % ROT_K} for i in range(16)]
+    nh = 8 if tier == "quick" else 32
+    shards += [{"part": "hist", "i": i, "n": nh} for i in range(nh)]
     return shards
 
 
@@ -1274,6 +1462,16 @@ def run_shard(sh, tier, seed):
                 run_value(desc, params, res, sample_every=4001, idx=idx)
             if sh["i"] == 0:
                 res.count("values/" + name, cnt)
+    elif sh["part"] == "hist":
+        for idx, (vname, desc, mut, variant, hist) in enumerate(h_cases(tier)):
+            if idx % sh["n"] != sh["i"]:
+                continue
+            if deadline_passed():
+                res.capped = True
+                return res
+            run_history(vname, desc, mut, variant, hist, res)
+            if idx % 7919 == 0:
+                res.sample({"part": "hist", "value": vname, "mut": mut, "variant": variant, "hist": list(hist)})
     else:
         k = sh["slice"]
         idx = 0
@@ -1319,9 +1517,16 @@ def describe(tier, seed, res):
                 "vectors; single-child chains of depth 4..6 over 6 kinds (90 no-truncation vectors); all object graphs with <=2 "
                 "nodes (5 kinds) and 3 nodes (list/dict/tuple), <=2 items per node (30 vectors). Non-trivial / distinct as in quick: "
                 "non-trivial = output contains a non-empty container (inline or expanded); distinct = outcome signatures.")
+    rule += (" HISTORY part: %d mutable values (list, dict, set, deque, defaultdict, nested) x applicable in-place mutations "
+             "%s x %d Pretty variants (default, max_length, max_string, expand_all, indent_guides, indent_size, combined) x "
+             "all histories of length <=%d over {measure at %d, render at %d, render at %d, mutate} containing a render, on ONE "
+             "Pretty instance; every render whose current representation fits the width line by line is judged: it must "
+             "evaluate back to (walk-match) the CURRENT object and equal pretty_repr of it."
+             % (len(H_VALUES), list(H_MUTATIONS), len(H_VARIANTS), 3 if tier == "quick" else 4, H_W1, H_W1, H_W2))
     return {
         "rule": rule,
         "assumptions": [
+            "HISTORY part: clause (a) compares with pretty_repr of the current object, which is itself decided by the main part of this check; clause (b) (eval-back / structural walk against the current object) is independent of it; renders in which some line of the representation is wider than the render width are not judged (cropping/wrapping is Text's business); indent guide characters are read as spaces",
             "eval environment = collections + array; \"<class 'int'>\" (repr's spelling of the default factory) is rewritten to int before eval",
             "repr equality is demanded only for values built solely from list/tuple/dict/set/frozenset and literal leaves (repr(Counter) orders by count)",
             "empty containers (e.g. frozenset(), array('i')) and dict keys (a tuple key is printed through repr) are atoms for the layout rules",
@@ -1331,6 +1536,7 @@ def describe(tier, seed, res):
             "deeper strata use reduced child menus (stated in rule); they are exhaustive within those menus, not over the full grammar",
         ],
         "coverage": {"values_by_stratum": vals,
+                     "histories": res.counters.get("histories", 0),
                      "rotating_slice": (seed % ROT_K) if tier == "quick" else None},
     }
 
@@ -1343,6 +1549,10 @@ def _tuplify(x):
 
 def replay(case):
     res = Result()
+    if case.get("part") == "hist":
+        desc = dict(H_VALUES)[case["value"]]
+        run_history(case["value"], desc, case["mut"], case["variant"], tuple(case["hist"]), res)
+        return [(k, v[2]) for k, v in sorted(res.violations.items())]
     desc = _tuplify(case["v"])
     run_value(desc, [(case["w"], case["ind"], case["ea"], case["ml"], case["ms"])], res)
     return [(k, v[2]) for k, v in sorted(res.violations.items())]
